@@ -256,3 +256,19 @@ def bytes_equal(a, b):
     """list-of-bytes equality as z3 Bool / python bool"""
     r = bytes_eq(list(a), list(b))
     return r.v
+
+
+class ConcreteP:
+    """stand-in for a Path when a reference model is evaluated on concrete values (native replay)"""
+
+    def branch(self, cond):
+        if isinstance(cond, Sc):
+            cond = cond.v
+        if isinstance(cond, bool):
+            return cond
+        c = z3.simplify(cond)
+        if z3.is_true(c):
+            return True
+        if z3.is_false(c):
+            return False
+        raise Unsupported('symbolic condition in concrete replay')
